@@ -124,6 +124,7 @@ def counterexample(con, ob, extra=(), tries=4):
             break
         for v in ivars:
             env.setdefault(v.val, C.default_value(v.sort))
+        C.snap_floats(env)
         try:
             cargs = C.concretize(rec.args_in, env)
         except tm.EvalError:
